@@ -36,8 +36,26 @@ func checkC07(c *core.Ctx) {
 			}
 			p.Nodes = []ref.Node{{Op: op, In: ids}}
 			root := len(in)
-			if wi >= 1 {
+			if wi == 4 {
+				// special data (round 16): the partner of the tracked operand is all zeros (both for mask 3)
+				if len(in) < 2 {
+					return core.Skip()
+				}
+				if mask&1 != 0 && op.K != "Div" {
+					in[1] = ref.FullOf(shapes[1], 0)
+				}
+				if mask&2 != 0 {
+					in[0] = ref.FullOf(shapes[0], 0)
+				}
+			}
+			if wi >= 1 && wi != 4 {
 				p, root = withWeighting(p, root, 13)
+			}
+			if wi == 3 { // an upstream gradient that is zero in every element: a zero gradient of the operand's own shape
+				w := p.Leaves[len(p.Leaves)-1]
+				for i := range w.V {
+					w.V[i] = 0
+				}
 			}
 			if wi == 2 { // upstream elements cancel exactly
 				w := p.Leaves[len(p.Leaves)-1]
@@ -137,7 +155,7 @@ func checkC07(c *core.Ctx) {
 		}
 		// explicit Broadcast: every source of every target
 		for _, src := range enum.BroadcastSources(t) {
-			for wi := 0; wi < 3; wi++ {
+			for wi := 0; wi < 4; wi++ {
 				run(fmt.Sprintf("broadcast/%v->%v/w%d", src, t, wi), ref.Op{K: "Broadcast", Shape: t}, [][]int{src}, 1, wi, ref.Size(src) != ref.Size(t))
 			}
 		}
@@ -145,7 +163,7 @@ func checkC07(c *core.Ctx) {
 		for _, pr := range enum.BroadcastPairs(t) {
 			for _, k := range ref.BroadcastingKinds {
 				for mask := 1; mask <= 3; mask++ {
-					for wi := 0; wi < 3; wi++ {
+					for wi := 0; wi < 5; wi++ {
 						if wi == 2 && mask != 3 {
 							continue
 						}
@@ -255,7 +273,7 @@ func checkC07(c *core.Ctx) {
 		}
 		for _, pr := range enum.BroadcastPairs(bt) {
 			for mask := 1; mask <= 3; mask++ {
-				for wi := 0; wi < 2; wi++ {
+				for _, wi := range []int{0, 1, 3, 4} {
 					for _, n := range dims {
 						sa, sb := mk(pr[0], n), mk(pr[1], n)
 						exp := (mask&1 != 0 && ref.Size(pr[0]) != ref.Size(bt)) || (mask&2 != 0 && ref.Size(pr[1]) != ref.Size(bt))
